@@ -16,7 +16,14 @@ Local Open Scope N_scope.
 (* ------------------------------------------------------------------ *)
 (* parser view                                                         *)
 
-Definition seek (data : list N) (pos : N) : list N := skipn (N.to_nat pos) data.
+(* = skipn (N.to_nat pos) data (lemma seek_unfold), without building a unary
+   number for a position far beyond the end (32-bit offsets in damaged data) *)
+Fixpoint drop (l : list N) (p : N) : list N :=
+  match l with
+  | [] => []
+  | _ :: r => if p =? 0 then l else drop r (p - 1)
+  end.
+Definition seek (data : list N) (pos : N) : list N := drop data pos.
 
 Definition w16 (a b : N) : N := a * 256 + b.
 
